@@ -653,12 +653,20 @@ func (db *DB) tableRangeCompaction(level int, umin, umax []byte) error {
 }
 
 func (db *DB) tableAutoCompaction() {
+	if atomic.LoadInt32(&db.readOnly) != 0 {
+		// Read-only means read-only: do not start compactions (for instance
+		// seek-triggered ones, which reads keep requesting).
+		return
+	}
 	if c := db.s.pickCompaction(); c != nil {
 		db.tableCompaction(c, false)
 	}
 }
 
 func (db *DB) tableNeedCompaction() bool {
+	if atomic.LoadInt32(&db.readOnly) != 0 {
+		return false
+	}
 	v := db.s.version()
 	defer v.release()
 	return v.needCompaction()
